@@ -112,6 +112,23 @@ theorem isExternalRaw_spec (cfg : Cfg) (hw : cfg.wf = true) (h : Str) :
     | gaierror => simp [external, destAddr, hp, h6, hr]
     | unicodeErr => simp [hp, h6]
 
+/-- A destination whose classification raises has no known address: the Spec does not route it. -/
+theorem external_false_of_raise (cfg : Cfg) (hw : cfg.wf = true) (h : Str) (e : DecExc)
+    (hr : isExternalRaw cfg h = .error e) : external cfg h = false := by
+  have hs := isExternalRaw_spec cfg hw h
+  rw [hr] at hs
+  simp only [Bool.or_eq_true, Bool.and_eq_true, Option.isNone_iff_eq_none, Bool.not_eq_true',
+    beq_iff_eq] at hs
+  unfold external destAddr
+  rcases hs with ⟨hp, h6⟩ | ⟨hv, hres⟩
+  · simp [hp, h6]
+  · have hp : parseIPv4 h = none := by
+      cases hp : parseIPv4 h with
+      | none => rfl
+      | some ip => simp [validateIp, hp] at hv
+    have h6 : isIPv6 h = false := by simpa [validateIp, hp] using hv
+    simp [hp, h6, hres]
+
 /-! ### cache -/
 
 /-- Every cached answer is the answer the classification gives now (resolution is fixed). -/
@@ -135,12 +152,11 @@ theorem cacheOk_cons (cfg : Cfg) (c : Cache) (h : Str) (b : Bool) (hc : CacheOk 
     simp only [he'] at hg
     exact hc h' b' hg
 
-/-- `is_allowed` answers the Spec's `shouldRoute`, or raises only in the class of F19a. -/
+/-- `is_allowed` answers the Spec's `shouldRoute`. -/
 theorem isAllowed_spec (cfg : Cfg) (hw : cfg.wf = true) (c : Cache) (hc : CacheOk cfg c)
     (h : Str) (hdr : Hdr) :
-    match isAllowed cfg (mkFilter cfg) c h hdr with
-    | .ok (b, c') => b = shouldRoute cfg h hdr ∧ CacheOk cfg c'
-    | .error _ => decisionRaises cfg h hdr = true := by
+    (isAllowed cfg (mkFilter cfg) c h hdr).1 = shouldRoute cfg h hdr ∧
+    CacheOk cfg (isAllowed cfg (mkFilter cfg) c h hdr).2 := by
   unfold isAllowed
   rw [mkFilter_valid, mkFilter_allow]
   by_cases hu : listsUsable cfg = true
@@ -171,12 +187,8 @@ theorem isAllowed_spec (cfg : Cfg) (hw : cfg.wf = true) (c : Cache) (hc : CacheO
             have hs := isExternalRaw_spec cfg hw h
             cases hr : isExternalRaw cfg h with
             | error e =>
-              rw [hr] at hs
-              simp only at hs
-              simp only
-              simp only [decisionRaises, hu, ho, ha, hb', Option.isNone_none, Bool.not_false,
-                Bool.true_and]
-              exact hs
+              have hx := external_false_of_raise cfg hw h e hr
+              simp [shouldRoute, hu, ho, ha, hm, hx, hc]
             | ok ob =>
               cases ob with
               | none =>
@@ -254,13 +266,12 @@ theorem onError_spec (cfg : Cfg) (s : St) :
   · have h' : cfg.maxEff > s.cnt + 1 := by omega
     simp [h, h']
 
-/-- One call: the invariant is kept and the observed event satisfies the Spec, or is of class F19a. -/
+/-- One call: the invariant is kept and the observed event satisfies the Spec. -/
 theorem call_spec (cfg : Cfg) (hw : cfg.wf = true) (s : St) (r : Ref) (hrel : Rel cfg s r)
     (c : CallIn) :
     Rel cfg (call cfg s c).1 (r.next cfg ⟨s.now, c, (call cfg s c).2⟩) ∧
     (call cfg s c).1.now = s.now ∧
-    ((eventOk cfg r ⟨s.now, c, (call cfg s c).2⟩ || excused cfg r ⟨s.now, c, (call cfg s c).2⟩) = true) ∧
-    (decisionRaises cfg c.host c.hdr = false → eventOk cfg r ⟨s.now, c, (call cfg s c).2⟩ = true) := by
+    eventOk cfg r ⟨s.now, c, (call cfg s c).2⟩ = true := by
   obtain ⟨hrel1, hnow, hcnt1, hcache1, hstart1, hok1⟩ := stateOk_spec cfg s r hrel
   unfold call
   generalize stateOk cfg s = s1 at *
@@ -272,34 +283,20 @@ theorem call_spec (cfg : Cfg) (hw : cfg.wf = true) (s : St) (r : Ref) (hrel : Re
     have hnext : r.next cfg ⟨s.now, c, ⟨[.direct], directResult c⟩⟩ = ⟨0, r.trip⟩ := by
       simp [Ref.next, gwTried]
     rw [hnext]
-    refine ⟨⟨rfl, ?_, ?_, hca⟩, hnow, ?_, ?_⟩
+    refine ⟨⟨rfl, ?_, ?_, hca⟩, hnow, ?_⟩
     · intro _; exact hop hokf
     · intro h; first | exact absurd h (by simp) | (simp only at h; rw [hokf] at h; exact absurd h (by simp))
     · simp [eventOk, noSwallow, cooldownRespected, filterRespected, recovers, gwTried, hopen]
-    · intro _
-      simp [eventOk, noSwallow, cooldownRespected, filterRespected, recovers, gwTried, hopen]
   · -- breaker closed
     have hopen' : r.isOpen cfg s.now = false := by simpa using hopen
     have hokt : s1.ok = true := by rw [hok1, hopen']; rfl
     have hcl' : r.isOpen cfg s1.now = false := hcl hokt
     simp only [hokt, if_true]
-    have hsp := isAllowed_spec cfg hw s1.cache hca c.host c.hdr
+    obtain ⟨hb, hca'⟩ := isAllowed_spec cfg hw s1.cache hca c.host c.hdr
     cases hal : isAllowed cfg (mkFilter cfg) s1.cache c.host c.hdr with
-    | error e =>
-      rw [hal] at hsp
-      simp only at hsp
-      simp only
-      have hnext : r.next cfg ⟨s.now, c, ⟨[], .raiseDec e⟩⟩ = r := by
-        simp [Ref.next, gwTried]
-      rw [hnext]
-      refine ⟨⟨hcnt, hop, hcl, hca⟩, hnow, ?_, ?_⟩
-      · cases e <;> simp [excused, hopen', hsp]
-      · intro hd; rw [hd] at hsp; exact absurd hsp (by simp)
-    | ok p =>
-      obtain ⟨b, cache⟩ := p
-      rw [hal] at hsp
-      simp only at hsp
-      obtain ⟨hb, hca'⟩ := hsp
+    | mk b cache =>
+      rw [hal] at hb hca'
+      simp only at hb hca'
       cases b with
       | false =>
         have hroute : shouldRoute cfg c.host c.hdr = false := hb.symm
@@ -307,12 +304,10 @@ theorem call_spec (cfg : Cfg) (hw : cfg.wf = true) (s : St) (r : Ref) (hrel : Re
         have hnext : r.next cfg ⟨s.now, c, ⟨[.direct], directResult c⟩⟩ = ⟨0, r.trip⟩ := by
           simp [Ref.next, gwTried]
         rw [hnext]
-        refine ⟨⟨rfl, ?_, ?_, hca'⟩, hnow, ?_, ?_⟩
+        refine ⟨⟨rfl, ?_, ?_, hca'⟩, hnow, ?_⟩
         · intro h; first | exact absurd h (by simp) | (simp only at h; rw [hokt] at h; exact absurd h (by simp))
         · intro _; exact hcl'
         · simp [eventOk, noSwallow, cooldownRespected, filterRespected, recovers, gwTried, hopen', hroute]
-        · intro _
-          simp [eventOk, noSwallow, cooldownRespected, filterRespected, recovers, gwTried, hopen', hroute]
       | true =>
         have hroute : shouldRoute cfg c.host c.hdr = true := hb.symm
         simp only [gwLeg]
@@ -322,23 +317,19 @@ theorem call_spec (cfg : Cfg) (hw : cfg.wf = true) (s : St) (r : Ref) (hrel : Re
           have hnext : r.next cfg ⟨s.now, c, ⟨[.gw], .respGw⟩⟩ = ⟨0, r.trip⟩ := by
             simp [Ref.next, gwTried, hg, GwOut.failed]
           rw [hnext]
-          refine ⟨⟨rfl, ?_, ?_, hca'⟩, hnow, ?_, ?_⟩
+          refine ⟨⟨rfl, ?_, ?_, hca'⟩, hnow, ?_⟩
           · intro h; first | exact absurd h (by simp) | (simp only at h; rw [hokt] at h; exact absurd h (by simp))
           · intro _; exact hcl'
           · simp [eventOk, noSwallow, cooldownRespected, filterRespected, recovers, gwTried, hopen', hroute, hg]
-          · intro _
-            simp [eventOk, noSwallow, cooldownRespected, filterRespected, recovers, gwTried, hopen', hroute, hg]
         | appExc =>
           simp only
           have hnext : r.next cfg ⟨s.now, c, ⟨[.gw], .raiseGwApp⟩⟩ = r := by
             simp [Ref.next, gwTried, hg, GwOut.failed]
           rw [hnext]
-          refine ⟨⟨hcnt, ?_, ?_, hca'⟩, hnow, ?_, ?_⟩
+          refine ⟨⟨hcnt, ?_, ?_, hca'⟩, hnow, ?_⟩
           · intro h; first | exact absurd h (by simp) | (simp only at h; rw [hokt] at h; exact absurd h (by simp))
           · intro _; exact hcl'
           · simp [eventOk, noSwallow, cooldownRespected, filterRespected, recovers, gwTried, hopen', hroute, hg]
-          · intro _
-            simp [eventOk, noSwallow, cooldownRespected, filterRespected, recovers, gwTried, hopen', hroute, hg]
         | connErr =>
           simp only [directLeg, List.cons_append, List.nil_append]
           obtain ⟨e1, e2, e3, e4⟩ := onError_spec cfg { cnt := s1.cnt, ok := true, start := s1.start, now := s1.now, cache := cache }
@@ -347,7 +338,7 @@ theorem call_spec (cfg : Cfg) (hw : cfg.wf = true) (s : St) (r : Ref) (hrel : Re
               ⟨r.streak + 1, if decide (cfg.maxEff ≤ r.streak + 1) then some s.now else r.trip⟩ := by
             simp [Ref.next, gwTried, hg, GwOut.failed]
           rw [hnext]
-          refine ⟨⟨by rw [e1, hcnt], ?_, ?_, by rw [e3]; exact hca'⟩, by rw [e2]; exact hnow, ?_, ?_⟩
+          refine ⟨⟨by rw [e1, hcnt], ?_, ?_, by rw [e3]; exact hca'⟩, by rw [e2]; exact hnow, ?_⟩
           · intro hf
             by_cases hm : cfg.maxEff ≤ s1.cnt + 1
             · simp only [hm, if_true] at e4
@@ -365,8 +356,6 @@ theorem call_spec (cfg : Cfg) (hw : cfg.wf = true) (s : St) (r : Ref) (hrel : Re
               simp only [hm', decide_false, Bool.false_eq_true, if_false]
               rw [e2]; exact hcl'
           · simp [eventOk, noSwallow, cooldownRespected, filterRespected, recovers, gwTried, hopen', hroute, hg, GwOut.failed]
-          · intro _
-            simp [eventOk, noSwallow, cooldownRespected, filterRespected, recovers, gwTried, hopen', hroute, hg, GwOut.failed]
         | errHdr =>
           simp only [directLeg, List.cons_append, List.nil_append]
           obtain ⟨e1, e2, e3, e4⟩ := onError_spec cfg { cnt := s1.cnt, ok := true, start := s1.start, now := s1.now, cache := cache }
@@ -375,7 +364,7 @@ theorem call_spec (cfg : Cfg) (hw : cfg.wf = true) (s : St) (r : Ref) (hrel : Re
               ⟨r.streak + 1, if decide (cfg.maxEff ≤ r.streak + 1) then some s.now else r.trip⟩ := by
             simp [Ref.next, gwTried, hg, GwOut.failed]
           rw [hnext]
-          refine ⟨⟨by rw [e1, hcnt], ?_, ?_, by rw [e3]; exact hca'⟩, by rw [e2]; exact hnow, ?_, ?_⟩
+          refine ⟨⟨by rw [e1, hcnt], ?_, ?_, by rw [e3]; exact hca'⟩, by rw [e2]; exact hnow, ?_⟩
           · intro hf
             by_cases hm : cfg.maxEff ≤ s1.cnt + 1
             · simp only [hm, if_true] at e4
@@ -393,8 +382,6 @@ theorem call_spec (cfg : Cfg) (hw : cfg.wf = true) (s : St) (r : Ref) (hrel : Re
               simp only [hm', decide_false, Bool.false_eq_true, if_false]
               rw [e2]; exact hcl'
           · simp [eventOk, noSwallow, cooldownRespected, filterRespected, recovers, gwTried, hopen', hroute, hg, GwOut.failed]
-          · intro _
-            simp [eventOk, noSwallow, cooldownRespected, filterRespected, recovers, gwTried, hopen', hroute, hg, GwOut.failed]
 
 /-! ### case analysis of one call (for the state-level theorems) -/
 
@@ -408,7 +395,6 @@ theorem stateOk_fields (cfg : Cfg) (s : St) :
 theorem call_cases (cfg : Cfg) (s : St) (c : CallIn) :
     ((stateOk cfg s).ok = false ∧
       call cfg s c = directLeg { stateOk cfg s with cnt := 0 } [] c) ∨
-    ((stateOk cfg s).ok = true ∧ ∃ e, call cfg s c = (stateOk cfg s, ⟨[], .raiseDec e⟩)) ∨
     ((stateOk cfg s).ok = true ∧ ∃ cache,
       call cfg s c = directLeg { stateOk cfg s with cache := cache, cnt := 0 } [] c) ∨
     ((stateOk cfg s).ok = true ∧ ∃ cache,
@@ -419,15 +405,21 @@ theorem call_cases (cfg : Cfg) (s : St) (c : CallIn) :
   · right
     simp only [hok, if_true, true_and]
     cases hal : isAllowed cfg (mkFilter cfg) s1.cache c.host c.hdr with
-    | error e => left; exact ⟨e, rfl⟩
-    | ok p =>
-      obtain ⟨b, cache⟩ := p
+    | mk b cache =>
       cases b with
-      | false => right; left; exact ⟨cache, rfl⟩
-      | true => right; right; exact ⟨cache, rfl⟩
+      | false => left; exact ⟨cache, rfl⟩
+      | true => right; exact ⟨cache, rfl⟩
   · have hok' : s1.ok = false := by simpa using hok
     left
     simp [hok']
+
+/-- Every call contacts at least one leg. -/
+theorem call_sent_ne_nil (cfg : Cfg) (s : St) (c : CallIn) : (call cfg s c).2.sent ≠ [] := by
+  rcases call_cases cfg s c with ⟨_, e⟩ | ⟨_, x, e⟩ | ⟨_, x, e⟩ <;> rw [e]
+  · simp [directLeg]
+  · simp [directLeg]
+  · unfold gwLeg
+    cases c.gw <;> simp [directLeg]
 
 /-! ### whole runs -/
 
@@ -446,8 +438,8 @@ theorem adv_rel (cfg : Cfg) (s : St) (r : Ref) (d : Nat) (h : Rel cfg s r) :
   obtain ⟨h1, h2, h3, h4⟩ := h
   exact ⟨h1, h2, fun hk => isOpen_mono cfg r s.now (s.now + d) (h3 hk) (by omega), h4⟩
 
-theorem run_holdsModulo (cfg : Cfg) (hw : cfg.wf = true) (is : List Input) :
-    ∀ (s : St) (r : Ref), Rel cfg s r → holdsModuloFrom cfg r (run cfg s is) = true := by
+theorem run_holds (cfg : Cfg) (hw : cfg.wf = true) (is : List Input) :
+    ∀ (s : St) (r : Ref), Rel cfg s r → holdsFrom cfg r (run cfg s is) = true := by
   induction is with
   | nil => intro s r _; rfl
   | cons i is ih =>
@@ -457,48 +449,30 @@ theorem run_holdsModulo (cfg : Cfg) (hw : cfg.wf = true) (is : List Input) :
       simp only [run, step]
       exact ih _ _ (adv_rel cfg s r d hrel)
     | call c =>
-      obtain ⟨h1, _, h3, _⟩ := call_spec cfg hw s r hrel c
-      simp only [run, step, holdsModuloFrom, Bool.and_eq_true]
-      exact ⟨h3, ih _ _ h1⟩
-
-theorem run_holds_partial (cfg : Cfg) (hw : cfg.wf = true) (is : List Input)
-    (hno : ∀ c, Input.call c ∈ is → decisionRaises cfg c.host c.hdr = false) :
-    ∀ (s : St) (r : Ref), Rel cfg s r → holdsFrom cfg r (run cfg s is) = true := by
-  induction is with
-  | nil => intro s r _; rfl
-  | cons i is ih =>
-    intro s r hrel
-    have ih' := ih (fun c hc => hno c (List.mem_cons_of_mem _ hc))
-    cases i with
-    | adv d =>
-      simp only [run, step]
-      exact ih' _ _ (adv_rel cfg s r d hrel)
-    | call c =>
-      obtain ⟨h1, _, _, h4⟩ := call_spec cfg hw s r hrel c
+      obtain ⟨h1, _, h3⟩ := call_spec cfg hw s r hrel c
       simp only [run, step, holdsFrom, Bool.and_eq_true]
-      exact ⟨h4 (hno c (by simp)), ih' _ _ h1⟩
+      exact ⟨h3, ih _ _ h1⟩
 
 /-! ### consequences of the Spec predicate on histories -/
 
-theorem holdsModuloFrom_append (cfg : Cfg) (a b : List Obs) :
-    ∀ r, holdsModuloFrom cfg r (a ++ b) =
-      (holdsModuloFrom cfg r a && holdsModuloFrom cfg (a.foldl (Ref.next cfg) r) b) := by
+theorem holdsFrom_append (cfg : Cfg) (a b : List Obs) :
+    ∀ r, holdsFrom cfg r (a ++ b) =
+      (holdsFrom cfg r a && holdsFrom cfg (a.foldl (Ref.next cfg) r) b) := by
   induction a with
-  | nil => intro r; simp [holdsModuloFrom]
-  | cons x xs ih => intro r; simp [holdsModuloFrom, ih, Bool.and_assoc]
+  | nil => intro r; simp [holdsFrom]
+  | cons x xs ih => intro r; simp [holdsFrom, ih, Bool.and_assoc]
 
-theorem holdsModuloFrom_head (cfg : Cfg) (r : Ref) (o : Obs) (rest : List Obs)
-    (h : holdsModuloFrom cfg r (o :: rest) = true) :
-    (eventOk cfg r o || excused cfg r o) = true := by
-  simp only [holdsModuloFrom, Bool.and_eq_true] at h; exact h.1
+theorem holdsFrom_head (cfg : Cfg) (r : Ref) (o : Obs) (rest : List Obs)
+    (h : holdsFrom cfg r (o :: rest) = true) : eventOk cfg r o = true := by
+  simp only [holdsFrom, Bool.and_eq_true] at h; exact h.1
 
-theorem holdsModuloFrom_mem (cfg : Cfg) (l : List Obs) :
-    ∀ r, holdsModuloFrom cfg r l = true → ∀ o ∈ l, ∃ r', (eventOk cfg r' o || excused cfg r' o) = true := by
+theorem holdsFrom_mem (cfg : Cfg) (l : List Obs) :
+    ∀ r, holdsFrom cfg r l = true → ∀ o ∈ l, ∃ r', eventOk cfg r' o = true := by
   induction l with
   | nil => intro r _ o ho; simp at ho
   | cons x xs ih =>
     intro r h o ho
-    simp only [holdsModuloFrom, Bool.and_eq_true] at h
+    simp only [holdsFrom, Bool.and_eq_true] at h
     rcases List.mem_cons.mp ho with e | hm
     · subst e; exact ⟨r, h.1⟩
     · exact ih _ h.2 o hm
@@ -541,23 +515,20 @@ theorem trip_after_fails (cfg : Cfg) (r : Ref) (init : List Obs) (f : Obs)
 
 /-- While every call falls inside the cool-down, the trip instant does not move. -/
 theorem trip_stable (cfg : Cfg) (T : Nat) (mid : List Obs) :
-    ∀ r, r.trip = some T → holdsModuloFrom cfg r mid = true →
+    ∀ r, r.trip = some T → holdsFrom cfg r mid = true →
       (∀ x ∈ mid, x.t < T + cfg.coolTicks) → (mid.foldl (Ref.next cfg) r).trip = some T := by
   induction mid with
   | nil => intro r h _ _; exact h
   | cons x xs ih =>
     intro r ht hh hm
-    simp only [holdsModuloFrom, Bool.and_eq_true] at hh
+    simp only [holdsFrom, Bool.and_eq_true] at hh
     have hopen : r.isOpen cfg x.t = true := by
       simp only [Ref.isOpen, ht, decide_eq_true_eq]; exact hm x (by simp)
     have hng : gwTried x = false := by
       have h1 := hh.1
-      simp only [Bool.or_eq_true] at h1
-      rcases h1 with h1 | h1
-      · simp only [eventOk, cooldownRespected, hopen, Bool.and_eq_true, Bool.not_true,
-          Bool.false_or, Bool.not_eq_true'] at h1
-        exact h1.1.1.2
-      · simp [excused, hopen] at h1
+      simp only [eventOk, cooldownRespected, hopen, Bool.and_eq_true, Bool.not_true,
+        Bool.false_or, Bool.not_eq_true'] at h1
+      exact h1.1.1.2
     simp only [List.foldl_cons]
     apply ih _ _ hh.2 (fun y hy => hm y (List.mem_cons_of_mem _ hy))
     rw [next_notTried_trip cfg r x hng]; exact ht
@@ -572,21 +543,21 @@ theorem noSwallow_direct_only (o : Obs) (h1 : noSwallow o = true) (h2 : gwTried 
   · rename_i hs; rw [hs] at h2; simp at h2
   · exact absurd h1 (by simp)
 
-theorem decisionRaises_not_route (cfg : Cfg) (h : Str) (hdr : Hdr)
-    (hd : decisionRaises cfg h hdr = true) : shouldRoute cfg h hdr = false := by
-  simp only [decisionRaises, Bool.and_eq_true, Bool.or_eq_true, Option.isNone_iff_eq_none,
-    Bool.not_eq_true', beq_iff_eq] at hd
-  obtain ⟨⟨⟨⟨_, ho⟩, ha⟩, hb⟩, hx⟩ := hd
-  have hext : external cfg h = false := by
-    unfold external destAddr
-    rcases hx with ⟨hp, h6⟩ | ⟨hv, hr⟩
-    · simp [hp, h6]
-    · have hp : parseIPv4 h = none := by
-        cases hp : parseIPv4 h with
-        | none => rfl
-        | some ip => simp [validateIp, hp] at hv
-      have h6 : isIPv6 h = false := by simpa [validateIp, hp] using hv
-      simp [hp, h6, hr]
-  simp [shouldRoute, ho, ha, hext]
+/-- Destinations the classification cannot place (an IPv6 literal; a name whose resolution
+    raises `UnicodeError`) are not routed unless a header or allow list says so. -/
+theorem unclassifiable_not_external (cfg : Cfg) (h : Str)
+    (hx : ((parseIPv4 h).isNone && isIPv6 h || (!validateIp h && cfg.resolve h == .unicodeErr)) = true) :
+    external cfg h = false := by
+  simp only [Bool.or_eq_true, Bool.and_eq_true, Option.isNone_iff_eq_none, Bool.not_eq_true',
+    beq_iff_eq] at hx
+  unfold external destAddr
+  rcases hx with ⟨hp, h6⟩ | ⟨hv, hr⟩
+  · simp [hp, h6]
+  · have hp : parseIPv4 h = none := by
+      cases hp : parseIPv4 h with
+      | none => rfl
+      | some ip => simp [validateIp, hp] at hv
+    have h6 : isIPv6 h = false := by simpa [validateIp, hp] using hv
+    simp [hp, h6, hr]
 
 end LunarVerif.C19
